@@ -1475,12 +1475,13 @@ def extract_function(fn, unit, repo, filecache, contracts):
     if is_ctor and fd.init:
         a, b = fd.init
         items = split_top(toks[a + 1:b])
-        inits = {}
+        inits = {}; brace_init = {}
         for it in items:
             it = strip_ws(it)
             if not it: continue
             nm = it[0].t
             o = next(i for i, x in enumerate(it) if x.k == 'op' and x.t in ('(', '{'))
+            brace_init[nm] = (it[o].t == '{')
             expr = it[o + 1:-1]
             ib = Body(list(expr), dict(ctx, locals={}, refs=set(p['name'] for p in params if p['is_ref'])))
             ib.r_casts(); ib.r_std(); ib.r_scoped(); ib.r_funcast(); ib.r_names(); ib.r_calls()
@@ -1496,6 +1497,8 @@ def extract_function(fn, unit, repo, filecache, contracts):
             if m in inits:
                 if fn.get('init_as_call', {}).get(m):
                     lines.append('  %s;' % fn['init_as_call'][m].replace('$', inits[m]))
+                elif mt in unit.get('members', {}) and brace_init.get(m):
+                    lines.append('  self->%s = (%s){ %s };' % (m, mt, inits[m]))     # aggregate member initialised with braces
                 else:
                     lines.append('  self->%s = (%s);' % (m, inits[m]))
         for m in inits:
